@@ -298,6 +298,14 @@ func (c *conformanceServiceServer) BidiStream(
 	// both scenarios of half duplex (we haven't sent any responses yet) or full duplex
 	// where the requested responses are greater than the total requests.
 	if responseDefinition != nil { //nolint:nestif
+		if !fullDuplex {
+			// The upload is complete, so the headers can go out now. Send them explicitly
+			// instead of leaving them to go with the first response or with the status:
+			// if there are no responses, they could otherwise get combined with the trailers.
+			if err := stream.SendHeader(nil); err != nil {
+				return err
+			}
+		}
 		for ; respNum < len(responseDefinition.ResponseData); respNum++ {
 			if err := stream.Context().Err(); err != nil {
 				return err
